@@ -177,3 +177,19 @@ Theorem C05_blocking_fifo_composed : forall pers caps fa cls t k p2 rem,
      /\ (forall c2, c2 < next (Compose.ci c x) -> c_thr (copies (Compose.ci c x) c2) <> p2)).
 Proof. exact Compose.fifo_composed. Qed.
 Print Assumptions C05_blocking_fifo_composed.
+
+(** "Publish does return": progress of the composed system.  In every reachable composed state
+    (any mode) in which no Subscribe / replay / teardown holds or has announced the write lock
+    and something in the registry is busy, some step of the composition itself is enabled: a
+    registry-internal step, the closing of a message's acked channel, a Sender's or teardown's
+    own step in some subscription - or a step of some subscription's CONSUMER (receive / Ack /
+    Nack).  A blocked Publish waits for nothing but the consumers of its subscribers.
+    (Termination - that the steps run out - needs a bound on the consumers' Nacks and a run
+    without further Subscribe / cancel: see GoChannel/ComposeLive.v; hence "_partial".) *)
+From WM Require GoChannel.ComposeLive.
+Theorem C05_blocking_returns_composed_partial : forall pers blk fx caps fa cls,
+  let c := Compose.crun (Compose.cinit pers blk fx caps fa) cls in
+  writer (Compose.cg c) = None -> wpending (Compose.cg c) = [] -> RegLive.busy (Compose.cg c) ->
+  ComposeLive.CProg c.
+Proof. exact ComposeLive.blocking_progress_composed. Qed.
+Print Assumptions C05_blocking_returns_composed_partial.
